@@ -540,13 +540,15 @@ fn resize_stream<F: Read + Write + Seek>(
             // existing chain.
             let mut chain =
                 minialloc.open_chain(old_start_sector, SectorInit::Zero)?;
+            let old_chain_len = chain.len();
             chain.set_len(new_stream_len)?;
             debug_assert_eq!(chain.start_sector_id(), old_start_sector);
             if new_stream_len > old_stream_len {
-                // New sectors are zeroed when they are allocated, but the rest
-                // of the old final sector may hold stale data.
-                let sector_len = chain.len() / chain.num_sectors() as u64;
-                let old_end = old_stream_len.div_ceil(sector_len) * sector_len;
+                // New sectors are zeroed when they are allocated, but what the
+                // chain already had beyond the old end of the stream may hold
+                // stale data: the rest of the old final sector, and (in files
+                // from writers that don't trim chains) whole further sectors.
+                let old_end = old_chain_len.max(old_stream_len);
                 let zero_len = old_end.min(new_stream_len) - old_stream_len;
                 chain.seek(SeekFrom::Start(old_stream_len))?;
                 write_zeros(&mut chain, zero_len)?;
